@@ -1,6 +1,6 @@
 //! IPv4, IPv6, IPv6 extension headers and options
 use super::alpha::*;
-use super::{caps, Rt};
+use super::{Ck, Proto, Rt, CK_ALL};
 use crate::core::Tier;
 use smoltcp::wire::*;
 
@@ -13,15 +13,19 @@ pub struct V4;
 impl Rt for V4 {
     const NAME: &'static str = "Ipv4Repr";
     type R<'x> = Ipv4Repr;
-    type Ctx = ();
-    fn chunk(tier: Tier, _i: usize) -> Vec<(Ipv4Repr, ())> {
+    type Ctx = Ck;
+    fn nchunks(_tier: Tier) -> usize {
+        CK_ALL.len()
+    }
+    fn chunk(tier: Tier, i: usize) -> Vec<(Ipv4Repr, Ck)> {
+        let m = CK_ALL[i];
         let mut v = vec![];
         for s in pick(tier, &v4s(), 3) {
             for d in pick(tier, &v4s(), 3) {
                 for p in pick(tier, &protos(), 4) {
                     for l in pick(tier, &[0usize, 1, 1480, 2, 3, 65515], 3) {
                         for h in pick(tier, &U8S, 2) {
-                            v.push((Ipv4Repr { src_addr: s, dst_addr: d, next_header: p, payload_len: l, hop_limit: h }, ()));
+                            v.push((Ipv4Repr { src_addr: s, dst_addr: d, next_header: p, payload_len: l, hop_limit: h }, m));
                         }
                     }
                 }
@@ -29,21 +33,34 @@ impl Rt for V4 {
         }
         v
     }
-    fn blen(r: &Ipv4Repr, _: &()) -> usize {
+    fn blen(r: &Ipv4Repr, _: &Ck) -> usize {
         r.buffer_len() + r.payload_len
     }
-    fn emit(r: &Ipv4Repr, _: &(), buf: &mut [u8]) {
-        r.emit(&mut Ipv4Packet::new_unchecked(&mut *buf), &caps(true));
+    fn emit(r: &Ipv4Repr, m: &Ck, buf: &mut [u8]) {
+        let mut p = Ipv4Packet::new_unchecked(&mut *buf);
+        r.emit(&mut p, &m.emit_caps(Proto::Ipv4));
+        if m.device_fills() {
+            p.fill_checksum();
+        }
         let h = r.buffer_len();
         let n = buf.len() - h;
         buf[h..].copy_from_slice(pat(n));
     }
-    fn parse(b: &[u8], _: &(), s: bool, k: &mut dyn FnMut(Option<&Ipv4Repr>)) {
-        let r = Ipv4Packet::new_checked(b).ok().and_then(|p| Ipv4Repr::parse(&p, &caps(s)).ok());
+    fn parse(b: &[u8], m: &Ck, s: bool, k: &mut dyn FnMut(Option<&Ipv4Repr>)) {
+        let r = Ipv4Packet::new_checked(b).ok().and_then(|p| Ipv4Repr::parse(&p, &m.parse_caps(Proto::Ipv4, s)).ok());
         k(r.as_ref())
     }
-    fn same(a: &Ipv4Repr, b: &Ipv4Repr, _: &()) -> bool {
+    fn same(a: &Ipv4Repr, b: &Ipv4Repr, _: &Ck) -> bool {
         a == b
+    }
+    fn base_ctx(m: &Ck) -> Option<Ck> {
+        (*m != Ck::Default).then_some(Ck::Default)
+    }
+    fn ctx_tag(m: &Ck) -> String {
+        m.name().into()
+    }
+    fn tx_off(m: &Ck) -> bool {
+        m.tx_off()
     }
     fn cksum(_: &Ipv4Repr) -> Option<std::ops::Range<usize>> {
         Some(10..12)
@@ -55,7 +72,7 @@ impl Rt for V4 {
         }
     }
     fn domain_doc() -> &'static str {
-        "src(7 kinds) x dst(7) x next_header(12 known + Unknown(0xfe), Unknown(0xff)) x payload_len {0,1,2,3,1480,65515} x hop_limit {0,1,64,255}; buffer = 20 + payload_len"
+        "src(7 kinds) x dst(7) x next_header(12 known + Unknown(0xfe), Unknown(0xff)) x payload_len {0,1,2,3,1480,65515} x hop_limit {0,1,64,255} x checksum capabilities (ipv4) {default; Tx; None; Rx with the harness filling the checksum as the device would; emit default / parse None; emit Rx / parse Tx}; buffer = 20 + payload_len"
     }
 }
 
